@@ -1,16 +1,26 @@
 (* Model of transport/reconnect/transport.go (Dial, writeReqRes/Write, writeLoop, readLoop,
-   pingLoop, reconnect, Read, CloseWithStatus) as repaired by the fix: commit for F8 (the write
-   loop cancels the transport when its redial budget is exhausted).  Executable; no proofs here.
+   pingLoop, reconnect, Read, CloseWithStatus) as it is after the fix: commits for F8 (the write
+   loop cancels the transport when its redial budget is exhausted) and F33 (so does the read
+   loop, after it has pushed the reconnect error).  Executable; no proofs here.
 
    The underlying transports are scripted incarnations: an incarnation accepts a write iff its
    Write returns nil, keeps what it accepted in order, and accepts nothing once closed or once
-   its capacity is used up (this is the transport_fifo assumption made concrete).  The dialer is
-   a script of outcomes consumed one per attempt; when it runs out every attempt fails.
+   its capacity is used up (the transport_fifo assumption made concrete).  The dialer is a
+   script of outcomes consumed one per attempt; when the script runs out every further attempt
+   fails - with a dial error, or (rc_tailhs) with a connection whose handshake read fails.
 
-   Granularity: one event is run to quiescence (the harness sequences events the same way);
-   the mutex r.mu serialises reconnect rounds, so rounds are atomic here.  Write callers are
-   processes whose outcome is WOk | WErr | WBlocked: a caller is blocked for ever exactly when
-   the write loop has returned and the context is not cancelled. *)
+   Granularity: one event is run to quiescence (the harness sequences events the same way: it
+   holds back the close error of a parked underlying Read until the event's other effects are
+   over, so a write-side redial is never raced by the read loop); the mutex r.mu serialises
+   reconnect rounds, so rounds are atomic here.  Three overlapped schedules are events of their
+   own or are linearised by the harness: a Close while a write is in flight in the underlying
+   Write with more writes queued behind it (BatchClose), a read failure while a write is in
+   flight (harness: ReadFail then Batch), a Read that is pending while something else happens
+   (ReadStart ... ReadJoin).
+   Write callers are processes whose outcome is WOk | WErr | WBlocked: a caller is blocked for
+   ever exactly when the write loop has returned and the context is not cancelled (or the
+   model's fuel ran out, which is proved impossible).  A pending Read is PWait until something
+   is handed to it. *)
 From Coq Require Import List NArith Bool Arith.
 From Iscp Require Import Lib.ListMap.
 Import ListNotations.
@@ -28,10 +38,13 @@ Definition is_ping (bs : list N) : bool := list_N_eqb bs ping.
 Inductive dial := DFail | DOk (hs : bool) (cap : option N).
 
 Record rcfg := mkRC {
-  rc_budget : nat;           (* MaxReconnectAttempts (>= 1; 0 means 30 in the code, not generated) *)
+  rc_budget : nat;           (* MaxReconnectAttempts as configured; 0 means 30 *)
   rc_tid : N;                (* 1 = DialConfig.TransportID configured, 2 = empty (uuid generated) *)
-  rc_script : list dial
+  rc_script : list dial;
+  rc_tailhs : bool           (* what the dialer does once the script is used up *)
 }.
+
+Definition eff_budget (b : nat) : nat := match b with O => 30%nat | _ => b end.
 
 (* ---------- state ---------- *)
 
@@ -42,26 +55,35 @@ Record sinc := mkI {
   i_status : list N              (* statuses of the CloseWithStatus calls it received *)
 }.
 
+(* the part of the state touched by dialling and writing *)
+Record net := mkNet {
+  n_incs : list sinc;            (* every transport the dialer handed out, in creation order *)
+  n_cur : nat;                   (* index of r.transport *)
+  n_script : list dial;
+  n_dials : list (N * bool)      (* (transport id code, Reconnect flag) of every attempt so far *)
+}.
+
+Inductive rres := ROk (bs : list N) | RErr | RBlocked.
+Inductive pread := PNone | PWait | PDone (r : rres).
+
 Record rstate := mkRS {
-  rs_incs : list sinc;           (* every transport the dialer handed out, in creation order *)
-  rs_cur : nat;                  (* index of r.transport *)
-  rs_script : list dial;
-  rs_budget : nat;
+  rs_budget : nat;               (* effective MaxReconnectAttempts *)
   rs_tid : N;
-  rs_dials : list (N * bool);    (* (transport id code, Reconnect flag) of every attempt so far *)
+  rs_tailhs : bool;
+  rs_net : net;
   rs_cancel : bool;              (* r.ctx cancelled *)
   rs_wloop : bool;               (* the write loop is running *)
   rs_readq : list (option (list N));   (* readResCh: Some message | None = the reconnect error *)
-  rs_rdead : bool                (* the read loop has returned (readResCh closed) *)
+  rs_rdead : bool;               (* the read loop has returned without a cancellation (readResCh closed) *)
+  rs_pr : pread                  (* the (one) Read call issued by ReadStart and not yet joined *)
 }.
 
-Definition set_incs st l := mkRS l (rs_cur st) (rs_script st) (rs_budget st) (rs_tid st) (rs_dials st) (rs_cancel st) (rs_wloop st) (rs_readq st) (rs_rdead st).
-Definition set_cur st c := mkRS (rs_incs st) c (rs_script st) (rs_budget st) (rs_tid st) (rs_dials st) (rs_cancel st) (rs_wloop st) (rs_readq st) (rs_rdead st).
-Definition set_script st s := mkRS (rs_incs st) (rs_cur st) s (rs_budget st) (rs_tid st) (rs_dials st) (rs_cancel st) (rs_wloop st) (rs_readq st) (rs_rdead st).
-Definition add_dial st (flag : bool) := mkRS (rs_incs st) (rs_cur st) (rs_script st) (rs_budget st) (rs_tid st) (rs_dials st ++ [(rs_tid st, flag)]) (rs_cancel st) (rs_wloop st) (rs_readq st) (rs_rdead st).
-Definition set_cancel st := mkRS (rs_incs st) (rs_cur st) (rs_script st) (rs_budget st) (rs_tid st) (rs_dials st) true false (rs_readq st) (rs_rdead st).
-Definition set_readq st q := mkRS (rs_incs st) (rs_cur st) (rs_script st) (rs_budget st) (rs_tid st) (rs_dials st) (rs_cancel st) (rs_wloop st) q (rs_rdead st).
-Definition set_rdead st := mkRS (rs_incs st) (rs_cur st) (rs_script st) (rs_budget st) (rs_tid st) (rs_dials st) (rs_cancel st) (rs_wloop st) (rs_readq st) true.
+Definition set_net st n := mkRS (rs_budget st) (rs_tid st) (rs_tailhs st) n (rs_cancel st) (rs_wloop st) (rs_readq st) (rs_rdead st) (rs_pr st).
+Definition set_cancel st b := mkRS (rs_budget st) (rs_tid st) (rs_tailhs st) (rs_net st) b (rs_wloop st) (rs_readq st) (rs_rdead st) (rs_pr st).
+Definition set_wloop st b := mkRS (rs_budget st) (rs_tid st) (rs_tailhs st) (rs_net st) (rs_cancel st) b (rs_readq st) (rs_rdead st) (rs_pr st).
+Definition set_readq st q := mkRS (rs_budget st) (rs_tid st) (rs_tailhs st) (rs_net st) (rs_cancel st) (rs_wloop st) q (rs_rdead st) (rs_pr st).
+Definition set_rdead st b := mkRS (rs_budget st) (rs_tid st) (rs_tailhs st) (rs_net st) (rs_cancel st) (rs_wloop st) (rs_readq st) b (rs_pr st).
+Definition set_pr st p := mkRS (rs_budget st) (rs_tid st) (rs_tailhs st) (rs_net st) (rs_cancel st) (rs_wloop st) (rs_readq st) (rs_rdead st) p.
 
 Fixpoint upd_nth {A} (n : nat) (f : A -> A) (l : list A) : list A :=
   match l, n with
@@ -78,69 +100,88 @@ Definition inc_write (bs : list N) (i : sinc) : sinc :=
 Definition inc_close (i : sinc) : sinc := mkI (i_cap i) (i_log i) true (i_status i).
 Definition inc_close_status (s : N) (i : sinc) : sinc := mkI (i_cap i) (i_log i) true (i_status i ++ [s]).
 
+(* the next outcome of the scripted dialer *)
+Definition next_dial (th : bool) (s : list dial) : dial :=
+  match s with [] => if th then DOk false None else DFail | d :: _ => d end.
+
 (* ---------- Dial: up to budget attempts, Reconnect flag clear, no handshake read ---------- *)
 
-Fixpoint dial0 (fuel : nat) (st : rstate) : rstate * bool :=
+Fixpoint dial0 (tid : N) (th : bool) (fuel : nat) (n : net) : net * bool :=
   match fuel with
-  | O => (st, false)
+  | O => (n, false)
   | S f =>
-      let st1 := add_dial st false in
-      match rs_script st with
-      | [] => dial0 f st1
-      | DFail :: s => dial0 f (set_script st1 s)
-      | DOk _ cap :: s => (set_cur (set_incs (set_script st1 s) (rs_incs st ++ [new_inc cap])) (length (rs_incs st)), true)
+      let ds := n_dials n ++ [(tid, false)] in
+      match next_dial th (n_script n) with
+      | DFail => dial0 tid th f (mkNet (n_incs n) (n_cur n) (tl (n_script n)) ds)
+      | DOk _ cap => (mkNet (n_incs n ++ [new_inc cap]) (length (n_incs n)) (tl (n_script n)) ds, true)
       end
   end.
 
 Definition rc_new (c : rcfg) : option rstate :=
-  let r := dial0 (rc_budget c) (mkRS [] 0 (rc_script c) (rc_budget c) (rc_tid c) [] false true [] false) in
-  if snd r then Some (fst r) else None.
+  let b := eff_budget (rc_budget c) in
+  let r := dial0 (rc_tid c) (rc_tailhs c) b (mkNet [] 0 (rc_script c) []) in
+  if snd r then Some (mkRS b (rc_tid c) (rc_tailhs c) (fst r) false true [] false PNone) else None.
 
 (* ---------- reconnect(old) with old = r.transport, called with r.mu held ---------- *)
 
-Fixpoint redial (fuel : nat) (st : rstate) : rstate * bool :=
+Fixpoint redial (tid : N) (th : bool) (fuel : nat) (n : net) : net * bool :=
   match fuel with
-  | O => (st, false)
+  | O => (n, false)
   | S f =>
-      let st1 := add_dial st true in
-      match rs_script st with
-      | [] => redial f st1
-      | DFail :: s => redial f (set_script st1 s)
-      | DOk hs cap :: s =>
-          let st2 := set_incs (set_script st1 s) (rs_incs st ++ [new_inc cap]) in
-          if hs then (set_cur st2 (length (rs_incs st)), true)
-          else redial f st2                       (* handshake read failed: counted, transport abandoned *)
+      let ds := n_dials n ++ [(tid, true)] in
+      match next_dial th (n_script n) with
+      | DFail => redial tid th f (mkNet (n_incs n) (n_cur n) (tl (n_script n)) ds)
+      | DOk hs cap =>
+          let incs := n_incs n ++ [new_inc cap] in
+          if hs then (mkNet incs (length (n_incs n)) (tl (n_script n)) ds, true)
+          else redial tid th f (mkNet incs (n_cur n) (tl (n_script n)) ds)
+                                                    (* handshake read failed: counted, transport abandoned *)
       end
   end.
 
-Definition reconnect (st : rstate) : rstate * bool :=
-  redial (rs_budget st) (set_incs st (upd_nth (rs_cur st) inc_close (rs_incs st))).
+Definition close_cur (n : net) : net :=
+  mkNet (upd_nth (n_cur n) inc_close (n_incs n)) (n_cur n) (n_script n) (n_dials n).
+
+Definition reconnect (b : nat) (tid : N) (th : bool) (n : net) : net * bool :=
+  redial tid th b (close_cur n).
 
 (* ---------- the write loop on one request ---------- *)
 
 Inductive wres := WOk | WErr | WBlocked.
+Inductive wl := WLAccepted | WLExhausted | WLFuel.
 
 (* fuel bounds the number of reconnect rounds; every successful round consumes a script entry *)
-Fixpoint wloop_one (fuel : nat) (st : rstate) (bs : list N) : rstate * wres :=
-  match nth_error (rs_incs st) (rs_cur st) with
-  | None => (st, WErr)
+Fixpoint wloop_one (b : nat) (tid : N) (th : bool) (fuel : nat) (n : net) (bs : list N) : net * wl :=
+  match nth_error (n_incs n) (n_cur n) with
+  | None => (n, WLFuel)
   | Some i =>
       if inc_accepts i
-      then (set_incs st (upd_nth (rs_cur st) (inc_write bs) (rs_incs st)), WOk)
+      then (mkNet (upd_nth (n_cur n) (inc_write bs) (n_incs n)) (n_cur n) (n_script n) (n_dials n), WLAccepted)
       else match fuel with
-           | O => (set_cancel st, WErr)
+           | O => (n, WLFuel)
            | S f =>
-               let r := reconnect st in
-               if snd r then wloop_one f (fst r) bs
-               else (set_cancel (fst r), WErr)     (* budget exhausted: reply, cancel, return *)
+               let r := reconnect b tid th n in
+               if snd r then wloop_one b tid th f (fst r) bs
+               else (fst r, WLExhausted)
            end
   end.
 
-(* Write(bs) by a caller, run to completion *)
+(* r.cancel(): a Read that is waiting returns ErrConnectionClosed *)
+Definition cancel_st (st : rstate) : rstate :=
+  let st1 := set_cancel st true in
+  match rs_pr st with PWait => set_pr st1 (PDone RErr) | _ => st1 end.
+
+(* Write(bs) by a caller (or the pong of the ping loop), run to completion *)
 Definition write_one (st : rstate) (bs : list N) : rstate * wres :=
   if rs_cancel st then (st, WErr)                  (* ErrConnectionClosed *)
   else if negb (rs_wloop st) then (st, WBlocked)   (* nobody serves the queue, nothing wakes the caller *)
-  else wloop_one (S (length (rs_script st))) st bs.
+  else
+    let r := wloop_one (rs_budget st) (rs_tid st) (rs_tailhs st) (S (length (n_script (rs_net st)))) (rs_net st) bs in
+    match snd r with
+    | WLAccepted => (set_net st (fst r), WOk)
+    | WLExhausted => (set_wloop (cancel_st (set_net st (fst r))) false, WErr)   (* reply, cancel, return *)
+    | WLFuel => (set_net st (fst r), WBlocked)
+    end.
 
 Fixpoint write_batch (st : rstate) (ws : list (N * list N)) : rstate * list wres :=
   match ws with
@@ -158,11 +199,12 @@ Inductive rev :=
 | BatchClose (ws : list (N * list N)) (status : N)
                                              (* the same, the first held in flight; then CloseWithStatus *)
 | Deliver (bs : list N)                      (* the current transport's Read returns bs to the read loop *)
-| ReadFail                                   (* the current transport's Read returns an error *)
-| ReadE (take : bool)                        (* Transport.Read; [take] resolves the select race after cancel *)
+| ReadFail (normal : bool)                   (* the current transport's Read returns an error
+                                                (normal: one that Is ErrConnectionNormalClose) *)
+| ReadStart (take : bool)                    (* Transport.Read is called; [take] resolves the select race after cancel *)
+| ReadJoin                                   (* what that Read call returned *)
 | CloseE (status : N).
 
-Inductive rres := ROk (bs : list N) | RErr | RBlocked.
 Inductive rout :=
 | OBatch (rs : list wres)
 | OUnit
@@ -172,35 +214,63 @@ Inductive rout :=
 
 Definition reading (st : rstate) : bool := negb (rs_cancel st) && negb (rs_rdead st).
 
+Definition item_res (x : option (list N)) : rres := match x with Some bs => ROk bs | None => RErr end.
+
+(* the read loop hands a result to readResCh *)
+Definition push_read (st : rstate) (x : option (list N)) : rstate :=
+  match rs_pr st with
+  | PWait => set_pr st (PDone (item_res x))
+  | _ => set_readq st (rs_readq st ++ [x])
+  end.
+
+(* the read loop returns: readResCh is closed *)
+Definition kill_reader (st : rstate) : rstate :=
+  let st1 := set_rdead st true in
+  match rs_pr st with PWait => set_pr st1 (PDone RErr) | _ => st1 end.
+
 Definition do_close (st : rstate) (status : N) : rstate :=
-  set_cancel (set_incs st (upd_nth (rs_cur st) (inc_close_status status) (rs_incs st))).
+  let n := rs_net st in
+  set_wloop (cancel_st (set_net st (mkNet (upd_nth (n_cur n) (inc_close_status status) (n_incs n)) (n_cur n) (n_script n) (n_dials n)))) false.
+
+Definition read_start (st : rstate) (take : bool) : rstate :=
+  match rs_pr st with
+  | PNone =>
+      match rs_readq st with
+      | x :: q =>
+          if rs_cancel st && negb take then set_pr st (PDone RErr)
+          else set_pr (set_readq st q) (PDone (item_res x))
+      | [] =>
+          if rs_cancel st || rs_rdead st then set_pr st (PDone RErr) else set_pr st PWait
+      end
+  | _ => st
+  end.
 
 Definition rstep (st : rstate) (e : rev) : rstate * rout :=
   match e with
   | Batch ws => let r := write_batch st ws in (fst r, OBatch (snd r))
-  | BatchClose ws status =>
-      if rs_cancel st then (st, OBatch (map (fun _ => WErr) ws))
-      else (do_close st status, OBatch (map (fun _ => WErr) ws))
+  | BatchClose ws status => (do_close st status, OBatch (map (fun _ => WErr) ws))
   | Deliver bs =>
       if reading st then
         if is_ping bs
         then let r := write_one st pong in
              (fst r, OPong (match snd r with WOk => true | _ => false end))
-        else (set_readq st (rs_readq st ++ [Some bs]), OUnit)
+        else (push_read st (Some bs), OUnit)
       else (st, OUnit)
-  | ReadFail =>
+  | ReadFail normal =>
       if reading st then
-        let r := reconnect st in
-        if snd r then (fst r, OReadFail true)
-        else (set_rdead (set_readq (fst r) (rs_readq (fst r) ++ [None])), OReadFail false)
+        if normal then (kill_reader st, OReadFail false)
+        else
+          let r := reconnect (rs_budget st) (rs_tid st) (rs_tailhs st) (rs_net st) in
+          if snd r then (set_net st (fst r), OReadFail true)
+          else (set_wloop (cancel_st (kill_reader (push_read (set_net st (fst r)) None))) false, OReadFail false)
+                                 (* budget exhausted: the error is handed to Read, r.cancel(), return *)
       else (st, OReadFail false)
-  | ReadE take =>
-      match rs_readq st with
-      | x :: q =>
-          if rs_cancel st && negb take then (st, ORead RErr)
-          else (set_readq st q, ORead (match x with Some bs => ROk bs | None => RErr end))
-      | [] =>
-          if rs_cancel st || rs_rdead st then (st, ORead RErr) else (st, ORead RBlocked)
+  | ReadStart take => (read_start st take, OUnit)
+  | ReadJoin =>
+      match rs_pr st with
+      | PDone r => (set_pr st PNone, ORead r)
+      | PWait => (st, ORead RBlocked)
+      | PNone => (st, OUnit)
       end
   | CloseE status => (do_close st status, OUnit)
   end.
@@ -216,12 +286,15 @@ Fixpoint rrun (st : rstate) (evs : list rev) : rstate * list rout :=
 
 (* ---------- the correspondence case ---------- *)
 
+Definition inc_o := (list (list N) * bool * list N)%type.   (* accepted log, closed, statuses *)
+
 Record rc_case := mkRcCase {
   rk_cfg : rcfg;
+  rk_free : bool;                                 (* the harness did not hold the read loop back *)
   rk_new : bool;                                  (* observed: Dial succeeded *)
   rk_evs : list rev;
   rk_outs : list rout;                            (* observed: one outcome per event *)
-  rk_incs : list (list (list N) * bool * list N); (* observed: per transport handed out: accepted log, closed, statuses *)
+  rk_incs : list inc_o;                           (* observed: per transport handed out *)
   rk_dials : list (N * bool)                      (* observed: (id code, Reconnect flag) per attempt; code 0 = wrong id *)
 }.
 
@@ -243,10 +316,11 @@ Definition rout_eqb (a b : rout) : bool :=
   | _, _ => false
   end.
 Definition dial_eqb (a b : N * bool) : bool := (fst a =? fst b) && Bool.eqb (snd a) (snd b).
-Definition inc_obs (i : sinc) := (i_log i, i_closed i, i_status i).
-Definition inc_obs_eqb (a b : list (list N) * bool * list N) : bool :=
+Definition inc_obs (i : sinc) : inc_o := (i_log i, i_closed i, i_status i).
+Definition inc_obs_eqb (a b : inc_o) : bool :=
   list_beq _ list_N_eqb (fst (fst a)) (fst (fst b)) && Bool.eqb (snd (fst a)) (snd (fst b))
   && list_N_eqb (snd a) (snd b).
+Definition inc_log_eqb (a b : inc_o) : bool := list_beq _ list_N_eqb (fst (fst a)) (fst (fst b)).
 
 Fixpoint prefix_beq {A} (eq : A -> A -> bool) (p l : list A) : bool :=
   match p, l with
@@ -255,9 +329,10 @@ Fixpoint prefix_beq {A} (eq : A -> A -> bool) (p l : list A) : bool :=
   | _ :: _, [] => false
   end.
 
-(* when the write loop exhausts its budget the read loop may race it with one more round of
-   attempts before it sees the cancellation, so after a cancellation only a prefix of the
-   attempts is determined *)
+(* [rk_free]: when the harness lets the read loop run freely, a write-side redial round that
+   exhausts the budget may be followed by one more round of the read loop before it sees the
+   cancellation; after a cancellation only a prefix of the attempts and of the transports is
+   determined, and which transport a later Close hits is not.  The accepted logs always are. *)
 Definition rc_corr (c : rc_case) : bool :=
   match rc_new (rk_cfg c) with
   | None =>
@@ -266,11 +341,15 @@ Definition rc_corr (c : rc_case) : bool :=
   | Some st =>
       rk_new c &&
       (let r := rrun st (rk_evs c) in
+       let mi := map inc_obs (n_incs (rs_net (fst r))) in
+       let md := n_dials (rs_net (fst r)) in
        list_beq _ rout_eqb (snd r) (rk_outs c)
-       && list_beq _ inc_obs_eqb (map inc_obs (rs_incs (fst r))) (rk_incs c)
-       && (if rs_cancel (fst r)
-           then prefix_beq dial_eqb (rs_dials (fst r)) (rk_dials c)
-           else list_beq _ dial_eqb (rs_dials (fst r)) (rk_dials c)))
+       && (if rk_free c && rs_cancel (fst r)
+           then prefix_beq inc_log_eqb mi (rk_incs c)
+                && forallb (fun o => match fst (fst o) with [] => true | _ => false end)
+                           (skipn (length mi) (rk_incs c))
+                && prefix_beq dial_eqb md (rk_dials c)
+           else list_beq _ inc_obs_eqb mi (rk_incs c) && list_beq _ dial_eqb md (rk_dials c)))
   end.
 
 (* ---------- the property predicate: input and the implementation's observation only ---------- *)
@@ -304,71 +383,86 @@ Fixpoint nodupb (l : list (list N)) : bool :=
   end.
 Definition memb_bs (x : list N) (l : list (list N)) : bool := existsb (list_N_eqb x) l.
 
-(* failure and read discipline, judged on the outcomes alone.  State: cz = the transport is
-   over (Close was called, or a Write failed, i.e. the write side exhausted its budget);
-   ra = the read loop is alive; q = what was delivered and not yet handed out (None = the
-   reconnect error of an exhausted read side).  No outcome may be Blocked unless nothing at all
-   can be read yet on a live transport; once the transport is over or the read side has
-   exhausted its budget every Write must fail (the property text: "pending and later Reads and
-   Writes fail with an error"); Read hands out exactly the delivered messages in order, never a
-   ping; a ping on a live transport is answered. *)
-Record disc := mkDi { d_cz : bool; d_ra : bool; d_q : list (option (list N)) }.
+(* Failure and read discipline, judged on the outcomes alone: a monitor.
+   d_cz = the transport is over (Close was called, or a Write / a pong failed, i.e. the write
+   side exhausted its budget, or the read side did); d_rx = the read side exhausted its budget
+   (a read failure the read loop did not survive); d_rn = the peer closed normally; d_q = what was delivered and
+   not yet handed out (None = the reconnect error of an exhausted read side); d_pr = the
+   pending Read.
+   - no Write is ever Blocked; a Write fails only when the transport is over and from then on
+     every Write fails; once the redial budget is exhausted - on either side - or Close was
+     called, no Write returns nil (the property text: "pending and later Reads and Writes fail
+     with an error");
+   - Read hands out exactly the delivered messages in order, never a ping; it is Blocked only
+     while the transport is live and nothing is queued; once the transport is over or the read
+     loop has ended it fails (a message queued before may still be handed out);
+   - a ping on a live transport is answered. *)
+Record disc := mkDi { d_cz : bool; d_rx : bool; d_rn : bool; d_q : list (option (list N)); d_pr : pread }.
 
-Fixpoint wres_all (cz ra : bool) (rs : list wres) : option bool :=   (* Some cz' | None = violation *)
-  match rs with
-  | [] => Some cz
-  | WBlocked :: _ => None
-  | WOk :: rs' => if negb cz && ra then wres_all cz ra rs' else None
-  | WErr :: rs' => wres_all true ra rs'
+Definition d_live (d : disc) : bool := negb (d_cz d) && negb (d_rx d) && negb (d_rn d).
+Definition d_wake (d : disc) : pread := match d_pr d with PWait => PDone RErr | p => p end.
+Definition d_over (d : disc) : disc := mkDi true (d_rx d) (d_rn d) (d_q d) (d_wake d).
+Definition d_push (d : disc) (x : option (list N)) : disc :=
+  match d_pr d with
+  | PWait => mkDi (d_cz d) (d_rx d) (d_rn d) (d_q d) (PDone (item_res x))
+  | _ => mkDi (d_cz d) (d_rx d) (d_rn d) (d_q d ++ [x]) (d_pr d)
   end.
 
-Definition disc_step (st : disc) (eo : rev * rout) : option disc :=
-  let live := negb (d_cz st) && d_ra st in
+Fixpoint wres_all (d : disc) (rs : list wres) : option disc :=
+  match rs with
+  | [] => Some d
+  | WBlocked :: _ => None
+  | WOk :: rs' => if negb (d_cz d) && negb (d_rx d) then wres_all d rs' else None
+  | WErr :: rs' => wres_all (d_over d) rs'
+  end.
+
+Definition disc_step (d : disc) (eo : rev * rout) : option disc :=
   match eo with
   | (Batch ws, OBatch rs) =>
-      if Nat.eqb (length ws) (length rs)
-      then match wres_all (d_cz st) (d_ra st) rs with
-           | Some cz' => Some (mkDi cz' (d_ra st) (d_q st))
-           | None => None
-           end
-      else None
+      if Nat.eqb (length ws) (length rs) then wres_all d rs else None
   | (BatchClose ws _, OBatch rs) =>
       if Nat.eqb (length ws) (length rs) && forallb (fun r => match r with WErr => true | _ => false end) rs
-      then Some (mkDi true (d_ra st) (d_q st)) else None
+      then Some (d_over d) else None
   | (Deliver bs, OUnit) =>
-      if is_ping bs then (if live then None else Some st)
-      else Some (if live then mkDi (d_cz st) (d_ra st) (d_q st ++ [Some bs]) else st)
-  | (Deliver bs, OPong _) => if is_ping bs && live then Some st else None
-  | (ReadFail, OReadFail alive) =>
-      if live then Some (if alive then st else mkDi (d_cz st) false (d_q st ++ [None]))
-      else if alive then None else Some st
-  | (ReadE take, ORead (ROk bs)) =>
-      match d_q st with
-      | Some x :: q => if list_N_eqb x bs && negb (is_ping bs) && (negb (d_cz st) || take)
-                       then Some (mkDi (d_cz st) (d_ra st) q) else None
-      | _ => None
+      if is_ping bs then (if d_live d then None else Some d)
+      else Some (if d_live d then d_push d (Some bs) else d)
+  | (Deliver bs, OPong ok) =>
+      if is_ping bs && d_live d then Some (if ok then d else d_over d) else None
+  | (ReadFail normal, OReadFail alive) =>
+      if d_live d then
+        if normal then (if alive then None else Some (mkDi (d_cz d) (d_rx d) true (d_q d) (d_wake d)))
+        else if alive then Some d
+        else let d1 := d_push d None in Some (mkDi true true (d_rn d1) (d_q d1) (d_pr d1))
+      else if alive then None else Some d
+  | (ReadStart take, OUnit) =>
+      match d_pr d with
+      | PNone =>
+          match d_q d with
+          | x :: q =>
+              if d_cz d && negb take then Some (mkDi (d_cz d) (d_rx d) (d_rn d) (d_q d) (PDone RErr))
+              else Some (mkDi (d_cz d) (d_rx d) (d_rn d) q (PDone (item_res x)))
+          | [] =>
+              Some (mkDi (d_cz d) (d_rx d) (d_rn d) []
+                         (if d_cz d || d_rx d || d_rn d then PDone RErr else PWait))
+          end
+      | _ => Some d
       end
-  | (ReadE take, ORead RErr) =>
-      if d_cz st then
-        match d_q st with
-        | None :: q => Some (if take then mkDi (d_cz st) (d_ra st) q else st)
-        | _ => if take then None else Some st
-        end
-      else match d_q st with
-           | None :: q => Some (mkDi (d_cz st) (d_ra st) q)
-           | [] => if d_ra st then None else Some st
-           | _ => None
-           end
-  | (ReadE _, ORead RBlocked) =>
-      match d_q st with [] => if live then Some st else None | _ => None end
-  | (CloseE _, OUnit) => Some (mkDi true (d_ra st) (d_q st))
+  | (ReadJoin, ORead r) =>
+      match d_pr d with
+      | PDone r' => if rres_eqb r r' then Some (mkDi (d_cz d) (d_rx d) (d_rn d) (d_q d) PNone) else None
+      | PWait => match r with RBlocked => Some d | _ => None end
+      | PNone => None
+      end
+  | (ReadJoin, OUnit) => match d_pr d with PNone => Some d | _ => None end
+  | (CloseE _, OUnit) => Some (d_over d)
   | _ => None
   end.
-Fixpoint disc_run (st : disc) (tr : list (rev * rout)) : bool :=
+Fixpoint disc_run (d : disc) (tr : list (rev * rout)) : bool :=
   match tr with
   | [] => true
-  | eo :: tr' => match disc_step st eo with None => false | Some st' => disc_run st' tr' end
+  | eo :: tr' => match disc_step d eo with None => false | Some d' => disc_run d' tr' end
   end.
+Definition disc_init : disc := mkDi false false false [] PNone.
 
 (* redial parameters: every attempt carries the one transport id; the Reconnect flag is clear
    up to and including the first successful attempt (Dial) and set on every later one.
@@ -386,20 +480,33 @@ Fixpoint dials_ok (tid : N) (n0 : nat) (ds : list (N * bool)) : bool :=
       end
   end.
 
+(* exactly once, in order: the accepted writes, restricted to those whose Write returned nil
+   (and the answered pings), are exactly those writes in issue order.  Judged when the payloads
+   identify the writes (distinct, none equal to "pong"). *)
+Definition once_in_order (tr : list (rev * rout)) (incs : list inc_o) : bool :=
+  let acc := concat (map (fun x => fst (fst x)) incs) in
+  let okw := accepted_stream tr in
+  if nodupb (all_payloads tr) && negb (memb_bs pong (all_payloads tr))
+  then list_beq _ list_N_eqb (filter (fun b => memb_bs b okw) acc) okw
+  else true.
+
 Definition rc_ok (c : rc_case) : bool :=
   if negb (rk_new c) then true
   else
     let tr := combine (rk_evs c) (rk_outs c) in
-    let acc := concat (map (fun x => fst (fst x)) (rk_incs c)) in
-    let okw := accepted_stream tr in
     Nat.eqb (length (rk_evs c)) (length (rk_outs c))
-    (* exactly once, in order: the accepted writes, restricted to those whose Write returned nil
-       (and the answered pings), are exactly those writes in issue order *)
-    && (if nodupb (all_payloads tr) && negb (memb_bs pong (all_payloads tr))
-        then list_beq _ list_N_eqb (filter (fun b => memb_bs b okw) acc) okw
-        else true)
-    && disc_run (mkDi false true []) tr
+    && once_in_order tr (rk_incs c)
+    && disc_run disc_init tr
     && dials_ok (rc_tid (rk_cfg c)) (S (head_fails (rc_script (rk_cfg c)))) (rk_dials c).
 
 Definition rc_judge (c : rc_case) : N :=
   (if rc_corr c then 0 else 1) + (if rc_ok c then 0 else 2).
+
+(* the case the model itself produces *)
+Definition model_case (c : rcfg) (evs : list rev) : rc_case :=
+  match rc_new c with
+  | None => mkRcCase c false false [] [] [] []
+  | Some st =>
+      let r := rrun st evs in
+      mkRcCase c false true evs (snd r) (map inc_obs (n_incs (rs_net (fst r)))) (n_dials (rs_net (fst r)))
+  end.
